@@ -43,7 +43,7 @@ theorem tool_safe_iff (k : Nat) : toolSafeAt k ↔ k = 0 := by
   · rintro rfl; exact tool_safe_without_giveup
 
 /-- … instantiated with the value regenerated from the current `main()`: the shipped tool is safe iff
-`main()` sets `cfg.MaxAttempts = 0` (fix F25); on a tree without the fix this is the open finding -/
+`main()` sets `cfg.MaxAttempts = 0` (fix F43); on a tree without the fix this is the open finding -/
 theorem shipped_tool_safe_iff :
     toolSafeAt Nsq.Gen.ToolsToFileFn.toFileMaxAttempts ↔ Nsq.Gen.ToolsToFileFn.toFileMaxAttempts = 0 :=
   tool_safe_iff _
@@ -70,13 +70,13 @@ theorem xdev_move_is_fail_stop (c : Cfg) (io : Nat → Fault) (st : St) (hrun : 
     · simp
     · simp [renameP, hg, hg2, clearOut]
 
-/-! ### `Close()` after a successful move out of the work dir (defect fixed by F26) -/
+/-! ### `Close()` after a successful move out of the work dir (defect fixed by F44) -/
 
 /-- full statement: whenever `Close()` returns with the tool still running, no descriptor is left in `f.out` -/
 def close_leaves_no_descriptor (c : Cfg) : Prop :=
   ∀ (io : Nat → Fault) (st : St), (closeOut c io st).status = .running → (closeOut c io st).hasOut = false
 
-/-- … holds for the tree with fix F26 (`closeClears = true`): every path of `Close()` that keeps running ends in
+/-- … holds for the tree with fix F44 (`closeClears = true`): every path of `Close()` that keeps running ends in
 `f.out = nil` — also the successful work-dir → output-dir move -/
 theorem close_leaves_no_descriptor_fixed (c : Cfg) (hcc : c.closeClears = true) : close_leaves_no_descriptor c := by
   intro io st
@@ -101,7 +101,7 @@ theorem close_leaves_no_descriptor_fixed (c : Cfg) (hcc : c.closeClears = true) 
           · intro h; simp at h
           · exact hclear _
 
-/-- … and is **false for the tree before F26** (`closeClears = false`, work dir in use): after one message and a
+/-- … and is **false for the tree before F44** (`closeClears = false`, work dir in use): after one message and a
 SIGHUP the finished file has been moved, the tool is running, and `f.out` still holds the closed descriptor … -/
 theorem close_leaves_no_descriptor_false : ¬ close_leaves_no_descriptor cfgGzWork := by
   intro h
@@ -119,7 +119,7 @@ theorem hup_then_message_kills_tool_before_F26 :
       [(.msg ⟨1, [104]⟩ 0 "t<REV>", false), (.hup, false), (.msg ⟨2, [105]⟩ 1 "t<REV>", false)]).finished.map (·.id) = [1] := by
   decide
 
-/-- with F26 the same history keeps the tool running and finishes both messages -/
+/-- with F44 the same history keeps the tool running and finishes both messages -/
 theorem hup_then_message_survives_with_F26 :
     (run { cfgGzWork with closeClears := true } (fun _ => .ok) (init FS.empty)
       [(.msg ⟨1, [104]⟩ 0 "t<REV>", false), (.hup, false), (.msg ⟨2, [105]⟩ 1 "t<REV>", false)]).status = .running
